@@ -102,7 +102,9 @@ def cases(tier, seed):
     # ill-typed arguments at every position (finite table, enumerated)
     bads = ["int", "str", "none", "onlyfill", "run_noncallable", "onlycompute", "dict",
             "fillrequest_only", "str_percent", "str_format", "list_percent", "dict_percent",
-            "str_braces", "bytes", "float_nan"]
+            "str_braces", "bytes", "float_nan", "fill_and_request", "compute_and_request",
+            "fill_noncallable_compute", "noncallable_fill_compute",
+            "fill_request_noncallable_run", "pages_iterable"]
     for bad in bads:
         for n_before in range(0, 3):
             for n_after in range(0, 3):
@@ -184,9 +186,94 @@ def random_nest(rng, items, depth=0):
     return out
 
 
+class Pages(object):
+    """A non-iterator iterable that happens to have attributes called like parts of other
+    protocols (a linked page of results: ``next`` is the following page)."""
+
+    def __init__(self, vals):
+        self.vals = vals
+        self.next = None
+        self.send = None
+        self.run = None
+        self.fill = None
+
+    def __iter__(self):
+        return iter(self.vals)
+
+    def __len__(self):
+        return len(self.vals)
+
+
+class Indexed(object):
+    """Iterable by the sequence protocol only (no __iter__)."""
+
+    def __init__(self, vals):
+        self.vals = vals
+
+    def __getitem__(self, i):
+        return self.vals[i]
+
+    def __len__(self):
+        return len(self.vals)
+
+
+class GenIterable(object):
+    """Iterable whose __iter__ is a generator function."""
+
+    def __init__(self, vals):
+        self.vals = vals
+
+    def __iter__(self):
+        for v in self.vals:
+            yield v
+
+
+FLOW_KINDS = {"tuple": tuple, "pages": Pages, "indexed": Indexed, "geniterable": GenIterable,
+              "deque": lambda vals: __import__("collections").deque(vals),
+              "map": lambda vals: map(lambda v: v, vals),
+              "dictvalues": lambda vals: dict(enumerate(vals)).values()}
+
+
 class OnlyFill(object):
     def fill(self, v):
         pass
+
+
+class FillAndRequest(object):
+    """Callable fill and request, nothing else: an element for FillRequestSeq, not for a
+    Sequence (which has no way to run it)."""
+
+    def fill(self, v):
+        pass
+
+    def request(self):
+        yield 1
+
+
+class ComputeAndRequest(object):
+    def compute(self):
+        yield 1
+
+    def request(self):
+        yield 1
+
+
+class FillNonCallableCompute(object):
+    compute = 5
+
+    def fill(self, v):
+        pass
+
+
+class NonCallableFillCompute(object):
+    fill = 5
+
+    def compute(self):
+        yield 1
+
+
+class FillRequestNonCallableRun(FillAndRequest):
+    run = None
 
 
 class RunNonCallable(object):
@@ -210,7 +297,12 @@ def make_bad(name):
             # arguments whose text contains formatting characters (they end up in the message)
             "str_percent": "50%", "str_format": "%s and %d", "list_percent": ["%"],
             "dict_percent": {"rate %": 0.5}, "str_braces": "{} {0} {name}",
-            "bytes": b"%x", "float_nan": float("nan")}[name]
+            "bytes": b"%x", "float_nan": float("nan"),
+            "fill_and_request": FillAndRequest(), "compute_and_request": ComputeAndRequest(),
+            "fill_noncallable_compute": FillNonCallableCompute(),
+            "noncallable_fill_compute": NonCallableFillCompute(),
+            "fill_request_noncallable_run": FillRequestNonCallableRun(),
+            "pages_iterable": Pages([1, 2]), "type_object_with_run": RunNonCallable}[name]
 
 
 def run_case(r, obs):
@@ -248,6 +340,15 @@ def run_case(r, obs):
 
         compare("flat-sequence", lambda: lena.core.Sequence(*fresh()).run(iter(flow())))
         compare("flat-sequence-list-flow", lambda: lena.core.Sequence(*fresh()).run(flow()))
+        # the flow in other containers: every iterable is a flow, whatever else it has
+        for fk in sorted(FLOW_KINDS):
+            mk = FLOW_KINDS[fk]
+            compare("flow-kind#" + fk, lambda mk=mk: lena.core.Sequence(*fresh()).run(mk(flow())))
+            compare("nested-flow-kind#" + fk, lambda mk=mk: lena.core.Sequence(
+                lena.core.Sequence(), lena.core.Sequence(*fresh())).run(mk(flow())))
+            if fk != "indexed":
+                compare("source-flow-kind#" + fk,
+                        lambda mk=mk: lena.core.Source(mk(flow()), *fresh())())
         # explicit Run adapters around non-run elements
         compare("explicit-run-adapters", lambda: lena.core.Sequence(
             *[e if hasattr(e, "run") else lena.core.Run(e) for e in fresh()]).run(iter(flow())))
@@ -383,6 +484,11 @@ def run_case(r, obs):
     elif k == "bad":
         obs.nontrivial = True
         bad = make_bad(r["bad"])
+        if r["where"] == "split_branch" and \
+                r["bad"] in ("fill_and_request", "fill_request_noncallable_run"):
+            # a branch with one fill/request element among callables is a FillRequestSeq: well typed
+            obs.count("bad_cases_skipped_as_well_typed")
+            return
         before = [gen.func("inc") for _ in range(r["before"])]
         after = [gen.func("dbl") for _ in range(r["after"])]
         args = before + [bad] + after
@@ -414,7 +520,7 @@ def run_case(r, obs):
             obs.count("accepted_at_construction")
             obs.fail("bad-argument-accepted:" + where,
                      "ill-typed argument %r at %s accepted at construction: %r"
-                     % (r["bad"], where, made))
+                     % (r["bad"], where, type(made).__name__))
     elif k == "source_noargs":
         obs.nontrivial = True
         try:
@@ -449,6 +555,28 @@ def run_case(r, obs):
             got = list(lena.core.Sequence(lena.core.Sequence(), lena.core.Sequence(
                 lena.core.Sequence())).run(xs))
             obs.check(got == xs, "empty-sequence-not-identity", "nested empty sequences")
+            # the result is a stream whatever the container of the flow was: taken with next()
+            for fk in sorted(FLOW_KINDS):
+                for seq in (lena.core.Sequence(), lena.core.Sequence(lena.core.Sequence())):
+                    res = seq.run(FLOW_KINDS[fk](list(xs)))
+                    got = []
+                    try:
+                        while True:
+                            try:
+                                got.append(next(res))
+                            except StopIteration:
+                                break
+                    except Exception as e:  # pylint: disable=broad-except
+                        obs.fail("empty-sequence-not-identity:" + fk,
+                                 "next() on %r.run(%s of %r) raised %r" % (seq, fk, xs, e))
+                        continue
+                    obs.check(len(got) == len(xs) and all(a is b for a, b in zip(got, xs)),
+                              "empty-sequence-not-identity:" + fk,
+                              "%r.run(%s of %r) taken with next() gives %r" % (seq, fk, xs, got))
 
 
 RULE += (' Elements also include user subclasses of Sequence that override run (reversing / terminating their output).')
+RULE += (' Flows are also given as tuples, deques, map objects, dict views and user iterables '
+         '(one with attributes named next/send/run/fill, one with __getitem__ only, one whose '
+         '__iter__ is a generator function); ill-typed arguments include every partial mix of '
+         'fill/compute/request/run attributes that is not an element.')
